@@ -10,6 +10,7 @@ import (
 	"math/rand"
 	"os"
 	"sort"
+	"sync"
 	"time"
 
 	"github.com/paulmach/orb"
@@ -120,8 +121,30 @@ func encMembers(c *wire.Case, ms osm.Members) {
 	c.Len(len(ms))
 	for _, m := range ms {
 		c.Int(typeCode(m.Type)).Int(m.Ref).Int(roleCode(m.Role)).Int(int64(m.Version)).Int(int64(m.ChangesetID)).
-			Int(int64(m.Lat)).Int(int64(m.Lon)).Int(int64(m.Orientation))
+			Int(int64(m.Lat)).Int(int64(m.Lon)).Int(int64(m.Orientation)).Int(nodesCode(m.Nodes))
 	}
+}
+
+// Member.Nodes (the node path of a way member) is carried as a number interned by content: 0 is nil,
+// equal numbers mean equal paths (every field of every node). No function under test may touch it.
+var (
+	nodesMu     sync.Mutex
+	nodesIntern = map[string]int64{}
+)
+
+func nodesCode(ns osm.WayNodes) int64 {
+	if ns == nil {
+		return 0
+	}
+	k := fmt.Sprint(len(ns), []osm.WayNode(ns))
+	nodesMu.Lock()
+	defer nodesMu.Unlock()
+	if id, ok := nodesIntern[k]; ok {
+		return id
+	}
+	id := int64(len(nodesIntern) + 1)
+	nodesIntern[k] = id
+	return id
 }
 func encPoints(c *wire.Case, ls orb.LineString) {
 	c.Len(len(ls))
@@ -154,6 +177,7 @@ type dMem struct {
 	CS       int64
 	Lat, Lon int64
 	Orient   int
+	Nodes    []dNode `json:",omitempty"`
 }
 
 func descUpdates(us osm.Updates) []dUpd {
@@ -180,7 +204,11 @@ func descNodes(ns osm.WayNodes) []dNode {
 func descMembers(ms osm.Members) []dMem {
 	r := make([]dMem, 0, len(ms))
 	for _, m := range ms {
-		r = append(r, dMem{string(m.Type), m.Ref, m.Role, m.Version, int64(m.ChangesetID), int64(m.Lat), int64(m.Lon), int(m.Orientation)})
+		var nd []dNode
+		if m.Nodes != nil {
+			nd = descNodes(m.Nodes)
+		}
+		r = append(r, dMem{string(m.Type), m.Ref, m.Role, m.Version, int64(m.ChangesetID), int64(m.Lat), int64(m.Lon), int(m.Orientation), nd})
 	}
 	return r
 }
@@ -357,6 +385,9 @@ func sameObs(a, b obs, rel bool) bool {
 		}
 		for i := range a.Members {
 			x, y := a.Members[i], b.Members[i]
+			if nodesCode(x.Nodes) != nodesCode(y.Nodes) {
+				return false
+			}
 			x.Nodes, y.Nodes = nil, nil
 			if fmt.Sprint(x) != fmt.Sprint(y) {
 				return false
@@ -709,6 +740,15 @@ func (g *gen) members(n int) osm.Members {
 		ms[i] = osm.Member{Type: ty, Ref: int64(1 + g.rng.Intn(30)), Role: roles[g.rng.Intn(len(roles))],
 			Version: g.rng.Intn(4), ChangesetID: osm.ChangesetID(g.rng.Intn(50)), Lat: g.coord(), Lon: g.coord(),
 			Orientation: orb.Orientation(g.rng.Intn(3) - 1)}
+		// the node path of a member (overpass `out geom`): every field of every node set; also empty
+		if k := g.rng.Intn(6); k < 2 || (ty == osm.TypeWay && k < 4) {
+			path := make(osm.WayNodes, g.rng.Intn(4))
+			for j := range path {
+				path[j] = osm.WayNode{ID: osm.NodeID(1 + g.rng.Intn(90)), Version: 1 + g.rng.Intn(5),
+					ChangesetID: osm.ChangesetID(1 + g.rng.Intn(50)), Lat: g.coord(), Lon: g.coord()}
+			}
+			ms[i].Nodes = path
+		}
 	}
 	return ms
 }
@@ -1074,7 +1114,9 @@ func main() {
 	// canaries: one corrupted observation per observable class
 	{
 		ns := osm.WayNodes{{ID: 1, Version: 1, Lat: 1, Lon: 1}, {ID: 2, Version: 1, Lat: 2, Lon: 2}, {ID: 3, Version: 2, Lat: 3, Lon: 3}}
-		ms := osm.Members{{Type: osm.TypeWay, Ref: 1, Role: "outer", Version: 1, Orientation: orb.CW}, {Type: osm.TypeNode, Ref: 2, Role: "", Version: 1, Lat: 5, Lon: 6}}
+		ms := osm.Members{{Type: osm.TypeWay, Ref: 1, Role: "outer", Version: 1, Orientation: orb.CW,
+			Nodes: osm.WayNodes{{ID: 7, Version: 2, ChangesetID: 3, Lat: 4, Lon: 5}, {ID: 8, Version: 1, ChangesetID: 2, Lat: 6, Lon: 7}}},
+			{Type: osm.TypeNode, Ref: 2, Role: "", Version: 1, Lat: 5, Lon: 6}}
 		us := osm.Updates{
 			{Index: 1, Version: 2, Timestamp: ts(base + 10), ChangesetID: 3, Lat: 20, Lon: 21},
 			{Index: 0, Version: 3, Timestamp: ts(base + 30), ChangesetID: 4, Lat: 30, Lon: 31, Reverse: true},
@@ -1083,19 +1125,20 @@ func main() {
 		}
 		oobUs := osm.Updates{{Index: 3, Version: 2, Timestamp: ts(base + 10)}}
 		cans := []*wire.Case{
-			applyCase(false, base+20, ns, nil, us, func(o *obs) { o.Nodes[1].Version++ }),                      // child field
-			applyCase(false, base+20, ns, nil, us, func(o *obs) { o.Nodes[2].Lat++ }),                          // untouched child
+			applyCase(false, base+20, ns, nil, us, func(o *obs) { o.Nodes[1].Version++ }),                                    // child field
+			applyCase(false, base+20, ns, nil, us, func(o *obs) { o.Nodes[2].Lat++ }),                                        // untouched child
 			applyCase(false, base+20, ns, nil, us, func(o *obs) { o.Updates[0], o.Updates[1] = o.Updates[1], o.Updates[0] }), // pending order
-			applyCase(false, base+20, ns, nil, oobUs, func(o *obs) { o.Idx++ }),                                // error index
-			applyCase(false, base+20, ns, nil, oobUs, func(o *obs) { o.Status = 0 }),                           // error swallowed
-			applyCase(true, base+35, nil, ms, us, func(o *obs) { o.Members[0].Orientation *= -1 }),             // orientation flip
-			applyCase(true, base+35, nil, ms, us, func(o *obs) { o.Members[1].ChangesetID++ }),                 // member field
-			composeCase(false, base+20, base+45, ns, nil, us, func(o *obs) { o.Nodes[1].Lon++ }),               // compose
-			lsatCase(base+45, ns, us, func(l *orb.LineString) { (*l)[1][0]++ }),                                // geometry point
-			lsatCase(base+45, ns, us, func(l *orb.LineString) { *l = (*l)[:2] }),                               // geometry length
-			uptoCase(base+30, us, func(l *osm.Updates) { *l = (*l)[1:] }),                                      // UpTo drops one
-			sortCase(0, us, func(l osm.Updates) { l[0], l[3] = l[3], l[0] }),                                   // not sorted
-			sortCase(1, us, func(l osm.Updates) { l[1] = l[0] }),                                               // not a permutation
+			applyCase(false, base+20, ns, nil, oobUs, func(o *obs) { o.Idx++ }),                                              // error index
+			applyCase(false, base+20, ns, nil, oobUs, func(o *obs) { o.Status = 0 }),                                         // error swallowed
+			applyCase(true, base+35, nil, ms, us, func(o *obs) { o.Members[0].Orientation *= -1 }),                           // orientation flip
+			applyCase(true, base+35, nil, ms, us, func(o *obs) { o.Members[1].ChangesetID++ }),                               // member field
+			applyCase(true, base+35, nil, ms, us, func(o *obs) { o.Members[0].Nodes = nil }),                                 // node path of a member lost
+			composeCase(false, base+20, base+45, ns, nil, us, func(o *obs) { o.Nodes[1].Lon++ }),                             // compose
+			lsatCase(base+45, ns, us, func(l *orb.LineString) { (*l)[1][0]++ }),                                              // geometry point
+			lsatCase(base+45, ns, us, func(l *orb.LineString) { *l = (*l)[:2] }),                                             // geometry length
+			uptoCase(base+30, us, func(l *osm.Updates) { *l = (*l)[1:] }),                                                    // UpTo drops one
+			sortCase(0, us, func(l osm.Updates) { l[0], l[3] = l[3], l[0] }),                                                 // not sorted
+			sortCase(1, us, func(l osm.Updates) { l[1] = l[0] }),                                                             // not a permutation
 			groupCase(base+45, ms, []gway{{1, ns, us}}, func(o, i []osmgeojson.VerifC15Segment) { o[0].Reversed = !o[0].Reversed }),
 			groupCase(base+45, ms, []gway{{1, ns, us}}, func(o, i []osmgeojson.VerifC15Segment) { o[0].Line[0][1] += 7 }),
 		}
